@@ -3,8 +3,11 @@ package main
 import (
 	"crypto/cipher"
 	"encoding/binary"
+	"errors"
 	"fmt"
+	"github.com/sirupsen/logrus"
 	"hash/crc32"
+	"io"
 	"reflect"
 	"strings"
 	"sync"
@@ -140,6 +143,31 @@ func retainedChanged() string {
 	return ""
 }
 
+// readChunksSeq feeds the chunks of a stream of frames to the decoder the way successive calls of Client.receive do:
+// one cipher state for the stream, fresh frame state after every returned frame or error
+func readChunksSeq(mode cipher.BlockMode, chunks [][]byte) (res []string) {
+	var buf []byte
+	var crcFlag bool
+	var frameSize uint32
+	var dataSize uint16
+	for _, c := range chunks {
+		res = append(res, func() (s string) {
+			defer func() {
+				if r := recover(); r != nil {
+					s = "panic"
+				}
+			}()
+			ms, err := rscp.Read(&mode, &buf, &crcFlag, &frameSize, &dataSize, append([]byte{}, c...))
+			if (err != nil && !errors.Is(err, rscp.ErrRscpInvalidFrameLength)) || ms != nil {
+				// the call of receive() ends here; the next one starts with fresh frame state and the same cipher state
+				buf, crcFlag, frameSize, dataSize = nil, false, 0, 0
+			}
+			return resMsgs(ms, err)
+		}())
+	}
+	return res
+}
+
 func readOnce(mode cipher.BlockMode, data []byte) string {
 	return readChunks(mode, [][]byte{data})[0]
 }
@@ -196,6 +224,42 @@ func rtCase(cw *caseWriter, ms [][]rscp.Message, crc bool, key string, now time.
 	if crc {
 		c = "1"
 	}
+	var streamCT []byte     // the ciphertext of all frames of the stream, in order
+	var streamWant []string // what each frame has to decode to
+	streamHasEmpty := false
+	defer func() {
+		if len(streamWant) < 2 || streamHasEmpty {
+			return // a frame without items is "nothing yet" for the receive loop: what follows it belongs to the same call
+		}
+		// the whole stream through ONE decoder state, cipher block by cipher block (how the client reads by default):
+		// every frame comes out, in order, and nothing else
+		_, dec2 := cbcPair(key)
+		var chunks [][]byte
+		for i := 0; i+32 <= len(streamCT); i += 32 {
+			chunks = append(chunks, streamCT[i:i+32])
+		}
+		var got []string
+		for _, r := range readChunksSeq(dec2, chunks) {
+			if r != "err invalidFrameLength" && r != "ok [ ]" {
+				got = append(got, r)
+			}
+		}
+		prop := "pass"
+		if strings.Join(got, " | ") != strings.Join(streamWant, " | ") {
+			prop = "FAIL C01 a stream of " + fmt.Sprint(len(streamWant)) + " frames read block by block on one decoder gives " + fmt.Sprint(len(got)) + " results: " + trunc(strings.Join(got, " | "), 200)
+			for i := range got {
+				if i >= len(streamWant) || got[i] != streamWant[i] {
+					w := "-"
+					if i < len(streamWant) {
+						w = streamWant[i]
+					}
+					prop += fmt.Sprintf(" ;first difference at %d: got %s want %s", i, trunc(got[i], 300), trunc(w, 300))
+					break
+				}
+			}
+		}
+		cw.add("skip", "skip", "N rt stream-blockwise frames="+fmt.Sprint(len(streamWant)), prop)
+	}()
 	for i, frame := range ms {
 		lbl := fmt.Sprintf("%s rt frame=%d/%d crc=%s %s %s", nt(nontrivialTree(frame)), i+1, len(ms), c, treeLabel(frame), label)
 		var ct []byte
@@ -225,6 +289,12 @@ func rtCase(cw *caseWriter, ms [][]rscp.Message, crc bool, key string, now time.
 			continue
 		}
 		plain := rec.plain[len(rec.plain)-1]
+		streamCT = append(streamCT, ct...)
+		if len(frame) > 0 {
+			streamWant = append(streamWant, "ok "+before)
+		} else {
+			streamHasEmpty = true
+		}
 		got := readOnce(dec, ct)
 		want := "ok " + before
 		prop := "pass"
@@ -356,9 +426,26 @@ func plainFrame(ms []rscp.Message, crc bool, now time.Time) []byte {
 
 // ---- stream any: arbitrary bytes into the decoder (C02, C03, C04) --------------------------
 
+var anyCounter int
+
 func anyCase(cw *caseWriter, p []byte, label string) {
+	about("dec " + hexOf(p))
 	got := readOnce(identityMode{}, p)
 	prop := "pass"
+	anyCounter++
+	if anyCounter%4 == 0 {
+		// what the decoder returns does not depend on the log level
+		old := rscp.Log.GetLevel()
+		oldOut := rscp.Log.Out
+		rscp.Log.SetOutput(io.Discard)
+		rscp.Log.SetLevel(logrus.TraceLevel)
+		again := readOnce(identityMode{}, p)
+		rscp.Log.SetLevel(old)
+		rscp.Log.SetOutput(oldOut)
+		if again != got {
+			cw.add("skip", "skip", "N any log-level", "FAIL * the decoder's result depends on the log level: "+trunc(got, 80)+" at the default level, "+trunc(again, 80)+" at trace level, for "+trunc(hexOf(p), 200))
+		}
+	}
 	if got == "panic" || got == "hang" {
 		prop = "FAIL C02 decoder " + got
 	} else if got == "overwrote-caller-memory" || got == "result-shares-the-callers-buffer" {
@@ -620,6 +707,54 @@ func init() {
 			nested := itemBytes(0x00800006, 0x0e, append(append([]byte{}, other...), it...))
 			anyCase(cw, padBlocks(frameBytes(nested, crc, 1, 2)), "N value-edge nested-last")
 		}
+		// known tags arriving with a data type other than the declared one: the tree is what the bytes say. Every tag with a
+		// declared type gets two other types (thorough: all), a sample of the tags without a declared type likewise.
+		{
+			var tags []rscp.Tag
+			for _, t := range g.known {
+				if t.DataType() != rscp.None || g.pick(25) == 0 {
+					tags = append(tags, t)
+				}
+			}
+			for k, t := range tags {
+				var others []rscp.DataType
+				for _, dt := range definedTypes {
+					if dt != t.DataType() && dt != rscp.Container {
+						others = append(others, dt)
+					}
+				}
+				if !thorough {
+					a, b := g.pick(len(others)), g.pick(len(others))
+					others = []rscp.DataType{others[a], others[b]}
+					// the signed/unsigned twin of the declared type is the likeliest "deviation" of a device
+					twin := map[rscp.DataType]rscp.DataType{rscp.Int32: rscp.Uint32, rscp.Uint32: rscp.Int32, rscp.Char8: rscp.UChar8, rscp.UChar8: rscp.Char8,
+						rscp.Int16: rscp.UInt16, rscp.UInt16: rscp.Int16, rscp.Int64: rscp.Uint64, rscp.Uint64: rscp.Int64, rscp.Float32: rscp.Double64, rscp.Double64: rscp.Float32, rscp.Bool: rscp.UChar8}
+					if tw, ok := twin[t.DataType()]; ok {
+						others = append(others, tw)
+					}
+				}
+				for _, dt := range others {
+					b := 40
+					m := rscp.Message{Tag: t, DataType: dt, Value: g.value(dt, 0, &b)}
+					switch dt { // values with the top bit set show a change of signedness
+					case rscp.Uint32:
+						m.Value = uint32(3000000000 + g.pick(1000))
+					case rscp.UChar8:
+						m.Value = uint8(200 + g.pick(50))
+					case rscp.UInt16:
+						m.Value = uint16(60000 + g.pick(5000))
+					case rscp.Uint64:
+						m.Value = uint64(1)<<63 + uint64(g.pick(1000))
+					}
+					if k%3 == 0 {
+						m = rscp.Message{Tag: rscp.BAT_DATA, DataType: rscp.Container, Value: []rscp.Message{m}}
+					}
+					if pl := plainFrame([]rscp.Message{m}, k%2 == 0, g.time()); pl != nil {
+						anyCase(cw, pl, "N known-tag-with-other-type")
+					}
+				}
+			}
+		}
 		// deeply nested containers: decoding has to stay linear in the size of the frame
 		depths := []int{25, 40, 64, 200, 1000}
 		if thorough {
@@ -670,6 +805,7 @@ func init() {
 func valCase(cw *caseWriter, ms []rscp.Message, label string) {
 	var impl string
 	before := msgsString(ms)
+	about("val " + before)
 	func() {
 		defer func() {
 			if r := recover(); r != nil {
@@ -755,6 +891,14 @@ func init() {
 				m := rscp.Message{Tag: rscp.INFO_REQ_UTC_TIME, DataType: dt, Value: v}
 				valCase(cw, []rscp.Message{m}, fmt.Sprintf("named-type=%d dt=%d top", k, dt))
 				valCase(cw, []rscp.Message{{Tag: rscp.BAT_REQ_DATA, DataType: rscp.Container, Value: []rscp.Message{m}}}, fmt.Sprintf("named-type=%d dt=%d nested", k, dt))
+			}
+		}
+		// values that contain themselves, under a few data types, top level and nested: refused like any other wrong value
+		for k, v := range selfReferential() {
+			for _, dt := range []rscp.DataType{rscp.CString, rscp.Container, rscp.UChar8, rscp.None} {
+				m := rscp.Message{Tag: rscp.INFO_REQ_UTC_TIME, DataType: dt, Value: v}
+				valCase(cw, []rscp.Message{m}, fmt.Sprintf("self-referential=%d dt=%d top", k, dt))
+				valCase(cw, []rscp.Message{{Tag: rscp.BAT_REQ_DATA, DataType: rscp.Container, Value: []rscp.Message{m}}}, fmt.Sprintf("self-referential=%d dt=%d nested", k, dt))
 			}
 		}
 		// an item declared value-less that carries the value its tag's table type would take (and others)
